@@ -24,4 +24,7 @@ theorem source_no_other_base_mutation : noOtherBaseMutation flowFacts = true := 
 /-- only `tryRemoveBackup` (ForceBackup) and the clean-up of Rollback remove from the backup -/
 theorem source_backup_removals_confined : backupRemovalsConfined flowFacts = true := by decide +kernel
 
+/-- the copies go to `fsys.backup` (and are taken: `copyFile`, `copySymlink`, `copyDir` are called) -/
+theorem source_backup_helpers_write_backup_only : backupHelpersWriteBackupOnly flowFacts = true := by decide +kernel
+
 end Props.C02
